@@ -22,6 +22,8 @@ macro_rules! info { ($fmt:expr $(, $arg:expr)* $(,)?) => { { $( crate::log_arg(&
 macro_rules! warn { ($fmt:expr $(, $arg:expr)* $(,)?) => { { $( crate::log_arg(&$arg); )* } } }
 macro_rules! error { ($fmt:expr $(, $arg:expr)* $(,)?) => { { $( crate::log_arg(&$arg); )* } } }
 macro_rules! panic { ($($t:tt)*) => { crate::vpanic() } }
+// `writeln!(vec, fmt, args..)`: arguments evaluated, then at least a newline appended (io::Write for Vec<u8> never fails)
+macro_rules! writeln { ($dst:expr, $fmt:literal $(, $arg:expr)* $(,)?) => { { $( crate::fmt_arg(&$arg); )* crate::vec_writeln(&mut $dst) } } }
 
 verus! {
 
